@@ -54,8 +54,8 @@ def index_obligations(facts, res, rule_vec, rule_idx, file_pred):
     obls = []
     for o in res['obl']:
         ff = fn_file(facts, o.fn)
-        if not file_pred(ff):
-            continue
+        if not file_pred(ff) or o.kind not in ('index', 'vector'):
+            continue        # float->int conversions are C11's (touchNote); elsewhere floating-point ranges are out of reach
         rule = rule_vec if o.kind == 'vector' else rule_idx
         loc = '%s/%s:%s' % (build.REPO, ff, o.ln)
         if o.ok:
